@@ -122,7 +122,7 @@ claim('C09', 'Coq proof (memoised DFS = reverse reachability by induction on fue
       'command and shell remove the same set for the same target; exactly those keys lose their result, all others are untouched; dependency-closedness '
       'is preserved; a following execute runs exactly the tasks without result, each once - also with the N-worker execution protocol of C01/C02 in place of the sequential execute: every quiet run of any number of workers calls no function of a task that kept its result and each invalidated function exactly once if it gets stored again (Proofs/ExecInvalidateFacts.v).  Tie: generated jugfiles (edges via args, kwargs, containers, '
       'tasklets, task-valued indices, mapped sequences/slices/elements, CustomHash, identity) x bare/dotted/regex targets x full/partial/non-closed/packed/'
-      'empty stores x file/packed/dict/fake-redis: exact remove_many argument, exact remove() sequence of every shell call, keys after, printed table, '
+      'empty stores x file/packed/dict/fake-redis: the set of keys handed to remove_many/remove by the command and by every shell invalidate() (the exact-list theorems stay; the tie is on the set), keys after, printed table, '
       'keys dumped by the next execute; oracle re-evaluates the program after the target\'s functions changed; incl. jugfiles that select their backend themselves with jug.set_jugdir (the --jugdir argument names another location; run through jug.jug.main; effects observed on the store the tasks use) and tasks whose result is None.',
       'Kernel + vm_compute; graph = what Task.dependencies() yields (link to syntactic dependencies: C03/C16, checked dynamically here); matcher is an oracle; '
       'per-backend remove_many refinement from C06; fake redis; no concurrent modification; wf_dag checked per observed graph.',
@@ -132,7 +132,7 @@ claim('C15', 'Coq proof (classification = specification by case analysis; counte
       'dependency is not stored, else failed/active/ready by its lock; exactly one column; cells, per-name sums and the Total row add up to the tasks; for every '
       'history in which results only grow (locks arbitrary) every cached call prints what the uncached command prints (sticky finished/ready entries stay true); '
       'check = 0 iff every task is complete, on every store state; in every reachable state of the N-worker execution protocol (Model/Exec.v) the column says what workers can do: complete - never started again, waiting - a dependency is missing and no worker can start it, failed - nobody can acquire the lock, active - a worker is between get and release on it (or died there), ready - any idle worker can lock, re-check and call the function right now (Proofs/ExecStatusFacts.v); the cached mode accepts exactly the jugfiles whose dependencies are created before their consumers (its documented precondition) and refuses the others.  Tie: generated jugfiles x 2-4-state monotone histories x held/failed locks x file/packed/dict/'
-      'fake-redis: every table cell, Total row, exit status, and the full sqlite cache content after every call; incl. stored results that are None / falsy, states packed by the real `jug pack` and by update_pack(), and jugfiles that select their backend with jug.set_jugdir.',
+      'fake-redis: every table cell, Total row, exit status, and the full sqlite cache content after every call; incl. stored results that are None / falsy, states packed by the real `jug pack` and by update_pack(), the file_keepalive backend, and jugfiles that select their store with jug.set_jugdir: plain status and check on the store the tasks use; the cached call is compared with the model reading the --jugdir store (known finding D27, classifier cache_ignores_jugfile_store, C15_cached_refuted_jugfile_store / C15_cached_same_store).',
       'Kernel + vm_compute; graph = what Task.dependencies() yields; wf_dag checked per observed graph; results not removed and jugfile unchanged between cached calls '
       '(hypotheses of the property); fake redis; sqlite3 and the table/cache parsers trusted; no concurrent modification during a command.',
       'DESIGN.md sec. 3 C15')
